@@ -1373,6 +1373,12 @@ class VarSub(Vars):
         indices_all = super().get_ind()
         return indices_all[self.indices].flatten()
 
+    def get(self):
+
+        var_sol = np.array(super().get())
+
+        return var_sol.reshape((var_sol.size, ))[self.indices]
+
     def __getitem__(self, item):
 
         new_indices = self.indices[item]
@@ -3708,6 +3714,19 @@ class DecVarSub(VarSub):
 
         expr = super().to_affine()
         return DecAffine(self.dro_model, expr, self.event_adapt, self.fixed)
+
+    def get(self, rvar=None):
+
+        def pick(values):
+            values = np.array(values)
+            tail = values.shape[len(self.shape):]
+            return values.reshape((self.size, ) + tail)[self.indices]
+
+        sol = self.dvars.get(rvar)
+        if isinstance(sol, pd.Series):
+            return pd.Series([pick(item) for item in sol], index=sol.index)
+        else:
+            return pick(sol)
 
     def adapt(self, rvars):
 
